@@ -323,9 +323,43 @@ def tw_exotic(kind: int, nest: int, dev: bool, rk: int = 0) -> bool:
 
 
 # ---- the real HTML table renderer on tabular shapes (untraced after the selectors are realised: boltons.tableutils)
-def _doc_ep(kind):
+def _doc_ep(kind, result=None):
+    """endpoints of every callable kind the framework accepts: functions with 6 docstring forms, then (6) a callable object
+    that defines __eq__ and is therefore unhashable, (7) a bound method, (8) a mutable dataclass with __call__ (unhashable),
+    (9) a callable object with a class docstring"""
+    if kind == 6:
+        class EqCallable(object):
+            def __eq__(self, other):
+                return isinstance(other, EqCallable)
+
+            def __call__(self):
+                return result
+        return EqCallable()
+    if kind == 7:
+        class Holder(object):
+            def method(self):
+                "A bound method."
+                return result
+        return Holder().method
+    if kind == 8:
+        import dataclasses
+
+        @dataclasses.dataclass
+        class DataEP(object):
+            limit: int = 3
+
+            def __call__(self):
+                return result
+        return DataEP()
+    if kind == 9:
+        class Documented(object):
+            "Callable object. With <b>markup</b> in its docstring."
+            def __call__(self):
+                return result
+        return Documented()
+
     def ep():
-        return None
+        return result
     ep.__doc__ = [None, '', 'One line only.', 'First line.\n\n    Indented <b>second</b> paragraph & more.\n    ', '  leading space single',
                   'See https://example.com/x?a=1&b=2 for "details".'][kind]
     return ep
@@ -360,10 +394,8 @@ def ob_table(ctx: int, doc: int, via_accept: bool, with_route: bool) -> bool:
 
 def confirm_table(ctx, doc, via_accept, with_route):
     from clastic import Application, render_basic
-    ep = _doc_ep(doc)
     c = _TABULAR[ctx]
-    ep2 = lambda: c
-    ep2.__doc__ = ep.__doc__
+    ep2 = _doc_ep(doc, c)
     app = Application([('/', ep2, render_basic)])
     cl = app.get_local_client()
     resp = cl.get('/', headers={'Accept': 'text/html'}) if via_accept else cl.get('/?format=html')
